@@ -196,6 +196,11 @@ func runCheck(e *Engine, id, tier string, dir string) (*checkResult, error) {
 			ps.Blocks = append(ps.Blocks, &FuncContract{Name: k, Loops: map[int]*LoopContract{}, Props: map[string]bool{id: true}, Classes: f[1:]})
 		}
 	}
+	for _, g := range ps.Generate {
+		if strings.TrimSpace(g) == "longest-run-table" {
+			res.obls = append(res.obls, e.groundLongestRunTable()...)
+		}
+	}
 	// package sweep: no function assigns the package-level tables
 	if ps.Sweep {
 		res.obls = append(res.obls, e.sweepGlobals()...)
